@@ -100,9 +100,22 @@ Proof.
 Qed.
 Print Assumptions C17_line_ending.
 
+(* which reply accepts: its first space-separated word is exactly the expected command ("OK" after AUTH,
+   "AGREE_UNIX_FD" after NEGOTIATE_UNIX_FD) - the line is the word alone or the word, a space and arguments; OKAY,
+   OKfoo, AGREE_UNIX_FDX, "OK<tab>guid" do not. The code's is_command is that test. *)
+Theorem C17_reply_test : forall line,
+  (is_command line OK_ = accepts OK_ line /\ is_command line AGREE_UNIX_FD = accepts AGREE_UNIX_FD line)
+  /\ (accepts OK_ line = true <-> line = OK_ \/ exists args, line = OK_ ++ SPACE :: args)
+  /\ (accepts AGREE_UNIX_FD line = true <-> line = AGREE_UNIX_FD \/ exists args, line = AGREE_UNIX_FD ++ SPACE :: args).
+Proof.
+  intros line. split; [split; [apply is_command_spec, OK_no_space|apply is_command_spec, AGREE_no_space]|].
+  split; [apply accepts_iff, OK_no_space|apply accepts_iff, AGREE_no_space].
+Qed.
+Print Assumptions C17_reply_test.
+
 (* every run against every scripted server is a conforming run of the protocol (Conn/AuthProofs.v
    [conforming]: NUL, AUTH EXTERNAL <hex>, [NEGOTIATE_UNIX_FD], BEGIN, each written only after the
-   complete accepting reply to the previous line; AuthFailed / UnixFdNegotiationFailed / error / waiting
+   complete accepting reply ([accepted]: first CR LF terminated line, UTF-8, [accepts] the expected command) to the previous line; AuthFailed / UnixFdNegotiationFailed / error / waiting
    otherwise) *)
 Theorem C17_auth_conforms : forall uid with_fd scr, uid < 2 ^ 32 ->
   exists ds, decimal_of uid ds
@@ -188,10 +201,10 @@ Theorem C17_auth_class : forall hex with_fd evs res,
   conforming hex with_fd evs res ->
   match res with
   | CAuthFailed => exists r1 line dropped, segments evs = [(NUL, []); (AUTH_LINE hex, r1)]
-                     /\ first_line r1 line dropped /\ utf8_valid line = true /\ starts_with OK_ line = false
+                     /\ first_line r1 line dropped /\ utf8_valid line = true /\ accepts OK_ line = false
   | CFdFailed => with_fd = true /\ exists r1 r2 line dropped,
                      segments evs = [(NUL, []); (AUTH_LINE hex, r1); (NEG_LINE, r2)] /\ accepted OK_ r1
-                     /\ first_line r2 line dropped /\ utf8_valid line = true /\ starts_with AGREE_UNIX_FD line = false
+                     /\ first_line r2 line dropped /\ utf8_valid line = true /\ accepts AGREE_UNIX_FD line = false
   | CBlocked => exists before w r, segments evs = before ++ [(w, r)] /\ ~ has_crlf r
   | COk | CErr => True
   | CPanic | CFuel => False
@@ -204,8 +217,8 @@ Theorem C17_auth_refusal : forall hex with_fd evs res,
   conforming hex with_fd evs res ->
   forall i w r line dropped,
     nth_error (segments evs) i = Some (w, r) -> first_line r line dropped ->
-    (i = 1%nat /\ (utf8_valid line && starts_with OK_ line) = false)
-    \/ (i = 2%nat /\ with_fd = true /\ (utf8_valid line && starts_with AGREE_UNIX_FD line) = false) ->
+    (i = 1%nat /\ (utf8_valid line && accepts OK_ line) = false)
+    \/ (i = 2%nat /\ with_fd = true /\ (utf8_valid line && accepts AGREE_UNIX_FD line) = false) ->
     ~ In BEGIN_LINE (map fst (segments evs)) /\ res <> COk.
 Proof. exact conforming_refusal. Qed.
 Print Assumptions C17_auth_refusal.
